@@ -8,25 +8,10 @@ ASSUME_COMMON = [
 
 CHECKS = {}
 
-CHECKS['C06'] = dict(
-    level='exploration',
-    technique='exhaustive finite-domain enumeration of the real channel_convert against an exact-arithmetic reference model',
-    rule='every ordered pair of 23 channel value models (u8,s8,u16,s16,u32,s32,float32,packed1..16) x every source '
-         'value: complete for sources <=16 bit and all packed widths; 32-bit/float sources: a complete fixed stratum '
-         '(quick) or every bit pattern (thorough). Case = (src model, dst model, value); distinct by construction '
-         '(the loop index is the value); non-trivial = value is not an end point of the source range. '
-         'Plus 9 packed channel reference models x 4 backgrounds x every value x 10 destinations.',
-    assumptions=ASSUME_COMMON + ['tolerance for pairs involving float32: one unit + 2^-22 of the destination range '
-                                 '(float dst: 4 ulp of 1.0); integral pairs incl. 32-bit: strictly < 1 unit in exact integers'],
-    tus=[dict(name='c06_convert', src='harness/c06_convert.cpp', deps=['harness/chan_models.hpp'], san=False, opt=2)],
-    runs=dict(
-        quick=[dict(tu='c06_convert', group='narrow', shards=8),
-               dict(tu='c06_convert', group='wide', bounds=dict(full32=0), shards=6),
-               dict(tu='c06_convert', group='refs', shards=2)],
-        thorough=[dict(tu='c06_convert', group='narrow', shards=4),
-                  dict(tu='c06_convert', group='wide', bounds=dict(full32=1), shards=64),
-                  dict(tu='c06_convert', group='refs', shards=1)]),
-    witnesses_required=dict(all=['pairs', 'signed_pairs', 'float_pairs', 'nondivisible_widening_pairs', 'ref_models']),
-    deadline=dict(quick=600, thorough=5400),
-)
 NOT_APPLICABLE = {}
+
+# one fragment per property under tools/checks.d/, exec'd in this namespace
+import os as _os, glob as _glob
+for _f in sorted(_glob.glob(_os.path.join(_os.path.dirname(_os.path.abspath(__file__)), 'checks.d', '*.py'))):
+    with open(_f) as _fh:
+        exec(compile(_fh.read(), _f, 'exec'))
